@@ -350,6 +350,7 @@ type netConf struct {
 	reqs          []reqSpec
 	conns         int // requests are dealt round-robin onto this many connections
 	halfClose     int // >0: connection halfClose-1 shuts down its sending side right after its last request (and keeps reading)
+	queueCap      int // job queue length of the listener's pool (0: 16)
 	window        int // >0: at most this many unread bytes per direction on every connection (a slow reader blocks the writer)
 	readDelayMs   int // the clients start reading their responses this long after their last request
 	shutdownAtMs  int // >0: the server is shut down (gracefully, ample context) at this time while requests keep arriving
@@ -359,8 +360,12 @@ func netScenario(c netConf) *vm.Scenario {
 	sc := &vm.Scenario{Name: c.name, MaxSteps: 500000}
 	sc.Main = func() {
 		tars.VerifNewApp()
+		qc := 16
+		if c.queueCap > 0 {
+			qc = c.queueCap
+		}
 		ts, _ := tars.VerifNewServer(adminf.NewAdminF(), imp{}, true, &transport.TarsServerConf{Proto: c.proto, Address: addr,
-			MaxInvoke: c.maxInvoke, QueueCap: 16, HandleTimeout: time.Duration(c.handleTimeout) * time.Millisecond, IdleTimeout: 600 * time.Second})
+			MaxInvoke: c.maxInvoke, QueueCap: qc, HandleTimeout: time.Duration(c.handleTimeout) * time.Millisecond, IdleTimeout: 600 * time.Second})
 		if c.window > 0 {
 			vnet.SetWindow(addr, c.window)
 		}
@@ -650,6 +655,26 @@ func main() {
 						sc := netScenario(cc)
 						sc.Check = func(r *vm.Result) string { return poolCheck(cc, r) }
 						cases = append(cases, e1.Case{Sc: sc, Opt: vm.Options{Bound: b, StrictDev: true, Policy: pol}, Budget: budget, MinOutcomes: 1})
+					}
+				}
+			}
+		}
+		// overload: more pipelined requests than workers + the one the dispatcher holds + the job queue (length 1, 2)
+		// can take; the receive loop waits for room, the bound holds, every request runs once
+		for _, proto := range []string{"tcp", "udp"} {
+			for _, pool := range []int32{1, 2} {
+				for _, qcap := range []int{1, 2} {
+					var reqs []reqSpec
+					for i := int32(0); i < pool+int32(qcap)+4; i++ {
+						reqs = append(reqs, R(300+i, 1, 0, "notify", "slow100"))
+					}
+					c := netConf{name: "listener pool overloaded", proto: proto, maxInvoke: pool, queueCap: qcap, conns: 1, reqs: reqs}
+					for pol, pn := range []string{"oldest-first", "newest-first", "round-robin"} {
+						cc := c
+						cc.name = fmt.Sprintf("%s proto=%s MaxInvoke=%d QueueCap=%d requests=%d bound=1 policy=%s", c.name, proto, pool, qcap, len(reqs), pn)
+						sc := netScenario(cc)
+						sc.Check = func(r *vm.Result) string { return poolCheck(cc, r) }
+						cases = append(cases, e1.Case{Sc: sc, Opt: vm.Options{Bound: 1, StrictDev: true, Policy: pol}, Budget: budget, MinOutcomes: 1})
 					}
 				}
 			}
